@@ -53,19 +53,24 @@ fn passes(prop: &str, tier: Tier) -> Vec<Bounds> {
             if q {
                 vec![bounds(3, 3, 1, 1, shapes8()), bounds(4, 2, 1, 1, shapes8()), bounds(2, 2, 2, 2, shapes14())]
             } else {
+                // ordered by cost; the generated-text oracles run on the first three (gen_text())
                 vec![
-                    bounds(3, 3, 2, 2, shapes8()),
+                    bounds(3, 3, 1, 1, shapes8()),
+                    bounds(4, 2, 1, 1, shapes8()),
+                    bounds(2, 2, 2, 2, shapes14()),
                     bounds(4, 3, 1, 1, shapes8()),
                     bounds(5, 2, 1, 1, shapes8()),
-                    bounds(3, 2, 2, 1, shapes14()),
+                    bounds(3, 3, 2, 1, shapes8()),
                     bounds(2, 4, 3, 2, shapes8()),
+                    bounds(3, 2, 2, 1, shapes14()),
+                    bounds(3, 3, 2, 2, shapes8()),
                 ]
             }
         }
         "C13" | "C19" => {
             // same size with different alignment (4/4 and 4/1, 0/1 and 0/4) must be in every alphabet:
             // the grouping of additions by size is where an ordering can become arbitrary
-            let six = vec![S(1, 1), S(4, 4), S(4, 1), S(0, 1), S(0, 4), S(8, 8), Shape { size: 2, align: 2, uninit: true }];
+            let six = vec![S(1, 1), S(4, 4), S(4, 1), S(0, 4), S(8, 8), Shape { size: 2, align: 2, uninit: true }];
             let mut v = match (prop, q) {
                 ("C13", true) => vec![bounds(3, 2, 1, 1, shapes_gen()), bounds(2, 2, 2, 2, shapes_gen())],
                 ("C13", false) => vec![bounds(3, 3, 1, 1, shapes_gen()), bounds(4, 2, 1, 1, shapes_gen()), bounds(2, 3, 2, 2, shapes_gen())],
@@ -125,8 +130,8 @@ pub fn run_layout(prop: &str, tier: Tier, threads: usize, cap: Option<Duration>)
     let n = all.len();
     for (i, b) in all.into_iter().enumerate() {
         // generated-text oracles (C02/C03) are evaluated on every transition of the first pass
-        // in quick mode and of every pass in thorough mode
-        let with_generate = tier == Tier::Thorough || i == 0;
+        // in quick mode and of the first three passes in thorough mode
+        let with_generate = if tier == Tier::Thorough { i < 3 } else { i == 0 };
         let oracle = oracle_for(prop, b.naming, with_generate);
         let deadline = cap.map(|c| {
             // share what is left between the remaining passes
@@ -187,7 +192,7 @@ fn main() {
         _ => {}
     }
 
-    let cap = if args.tier == Tier::Thorough { Some(Duration::from_secs(1500)) } else { Some(Duration::from_secs(600)) };
+    let cap = if args.tier == Tier::Thorough { Some(Duration::from_secs(2700)) } else { Some(Duration::from_secs(600)) };
     let mut report = Report::new("hist", &args, "model_checking");
     let (run, other) = if prop == "C19" {
         // two separately started processes explore the same space concurrently
